@@ -376,7 +376,12 @@ def job_operator(cfg):
             law.active_stress = 1.5
             law.Set_active_stress_vec(fibre_field(g))
         mark = c.mark()
+        th_sym = c.var("thickness", Fraction(1, 4), 4, shadow=Fraction(5, 2)) if dim == 2 else None  # 2-D operators carry the thickness of the body
+        if th_sym is not None:
+            res.symbols += 1
         with facade.symbolic():
+            if th_sym is not None:
+                law.thickness = th_sym
             st = HyperElasticState(g, u, MatrixType.rigi)
             extra = None
             if op == "SecondPiolaKirchhoffStressTensor":
@@ -399,6 +404,8 @@ def job_operator(cfg):
             uf = np.array([float(as_sym(x).eval(full)) for x in u])
             vf = None if v is None else np.array([float(as_sym(x).eval(full)) for x in v])
             lawf = make_law(name, dim) if name != "Polynomial" else law.concrete(full)
+            if th_sym is not None:
+                lawf.thickness = float(as_sym(th_sym).eval(full))
             if op == "KelvinVoigtDamping":
                 lawf.eta = 0.75
             if op == "ActiveStressTensor":
